@@ -72,11 +72,14 @@ def make_col(dtype, vals, levels, with_null):
     raise ValueError(dtype)
 
 
-def make_num(dtype, n, with_null):
+BIG = [2 ** 53 + 1, 2 ** 53 + 3, 4, 1, 5, 2 ** 60 + 1, 2, 6]
+
+
+def make_num(dtype, n, with_null, big=False):
     import pandas as pd
     import pyarrow as pa
 
-    base = [3, 1, 4, 1, 5, 9, 2, 6][:n]
+    base = (BIG if big else [3, 1, 4, 1, 5, 9, 2, 6])[:n]
     if dtype in ("bool", "boolean"):
         vals = [b % 2 == 0 for b in base]
     else:
@@ -100,6 +103,8 @@ def enum_grid(tier: str):
             for output in ("pandas", "numpy", "sparse"):
                 for usage in ("alone", "interaction", "nulls", "two", "wrapped", "late"):
                     yield {"dtype": dtype, "mat": mat, "output": output, "usage": usage, "levels": LEVELS, "vals": VALS}
+                if dtype in ("int64", "uint64", "Int64", "arrow_int64"):  # whole numbers a double cannot hold
+                    yield {"dtype": dtype, "mat": mat, "output": output, "usage": "alone_big", "levels": LEVELS, "vals": VALS}
 
 
 def gen_random(rng: random.Random, tier: str) -> dict:
@@ -181,7 +186,7 @@ def judge(case) -> Outcome:
         return out
     try:
         if is_num:
-            col = make_num(dtype, n, with_null)
+            col = make_num(dtype, n, with_null, big=usage == "alone_big")
         else:
             col = make_col(dtype, vals, case["levels"], False)
         num = np.arange(1, n + 1, dtype=float) / 2
@@ -205,7 +210,7 @@ def judge(case) -> Outcome:
         except Exception:  # noqa: BLE001
             out.decided = False
             return out
-    f = {"alone": "0 + V", "interaction": "0 + V:num", "nulls": "0 + V", "two": "0 + V + W", "wrapped": "0 + C(V)", "late": "0 + V"}[usage]
+    f = {"alone_big": "0 + V", "alone": "0 + V", "interaction": "0 + V:num", "nulls": "0 + V", "two": "0 + V + W", "wrapped": "0 + C(V)", "late": "0 + V"}[usage]
     tag = f"dtype={dtype} mat={mat} out={output} usage={usage} levels={case['levels']}"
     try:
         with quiet():
@@ -228,6 +233,15 @@ def judge(case) -> Outcome:
         if bad:  # indicator columns are numbers (0/1), not truth values: X.T @ X must be arithmetic
             out.fail("c08.boolean_cells", f"{tag}: indicator columns come back as truth values ({bad}), not numbers")
             return out
+    if usage == "alone_big":  # passes through unchanged: cell by cell the same whole numbers (no detour through doubles)
+        obj = getattr(mm, "__wrapped__", mm)
+        import scipy.sparse as sp_
+
+        cells = obj.iloc[:, 0].tolist() if isinstance(obj, pd.DataFrame) else (obj.toarray() if sp_.issparse(obj) else np.asarray(obj))[:, 0].tolist()
+        if names != ["V"] or [int(c) for c in cells] != BIG[:n]:
+            out.fail("c08.numeric_values", f"{tag}: whole numbers {BIG[:n]} came back as {cells[:8]} (columns {names})")
+        out.see("big_integers_checked")
+        return out
     if is_num:
         keep = [i for i in range(n) if not (with_null and i == 1 and dtype in ("Int64", "Float64", "boolean", "float16", "float32", "float64", "arrow_int64", "arrow_float64"))]
     else:
